@@ -151,4 +151,5 @@ class WeightedSum(Component):
             self._out_data = result
             self._last_update = time
 
-        return self._out_data
+        # hand out a copy: the output refuses data sharing memory with its last delivery
+        return self._out_data.copy()
